@@ -7,7 +7,7 @@ from lib.common import build_props
 
 GROUPS = ['GenAsync', 'GenStruct', 'GenObserve']
 SHAPES = ['ValueError', 'CustomError', 'AttrError', 'SystemExit', 'KeyboardInterrupt', 'Cancelled', 'BaseExc',
-          'Unpicklable', 'LambdaAttr', 'LocalClass', 'NestedArgs']
+          'Unpicklable', 'LambdaAttr', 'LocalClass', 'NestedArgs', 'CtorArgs']
 LIMIT = {'fork': 12, 'threading': 12, 'forkserver': 20, 'spawn': 25}
 CAL = {}          # seconds a trivial pool life cycle takes right now, per start method (runner.calibrate)
 
@@ -97,7 +97,7 @@ def gen_failing_history(rng, k, sms):
     sm = sms[k % len(sms)]
     pool = {'n_jobs': rng.choice([1, 2, 3]), 'start_method': sm, 'use_dill': rng.random() < 0.3, 'keep_alive': rng.random() < 0.5}
     calls, behaviour, shapes = [], {'task': []}, []
-    easy = ['ValueError', 'CustomError', 'AttrError', 'BaseExc', 'NestedArgs', 'SlowPickle', 'SlowPickle']
+    easy = ['ValueError', 'CustomError', 'AttrError', 'BaseExc', 'NestedArgs', 'SlowPickle', 'SlowPickle', 'CtorArgs']
     for j in range(rng.choice([2, 2, 3])):
         base = 1000 * (j + 1)
         n = rng.choice([2, 5, 9])
@@ -127,7 +127,20 @@ def gen_apply(rng, k, sms):
             sh = rng.choice(SHAPES)
             shapes.append(sh)
             behaviour['task'].append({'at': 2000 + i, 'do': 'raise', 'exc': sh})
-    return {'id': f'xa{k}', 'pool': pool, 'calls': [{'kind': 'apply_batch', 'jobs': jobs, 'get_timeout': 20}], 'budget': 60,
+    call = {'kind': 'apply_batch', 'jobs': jobs, 'get_timeout': 20, 'params': {}}
+    if k % 3 == 2:
+        # the worker_init given to apply_async raises (with or without an init timeout configured - two code paths): every
+        # job's get() raises that exception
+        sh = rng.choice(SHAPES[:3] + ['CtorArgs', 'NestedArgs'])
+        call['init_raises'] = [sh, 77]
+        shapes.append(sh)
+        behaviour['task'] = []
+        if rng.random() < 0.6:
+            call['params'] = {'worker_init_timeout': 30}
+        if rng.random() < 0.4:
+            call['params']['worker_exit_timeout'] = 30
+        call['no_join'] = True
+    return {'id': f'xa{k}', 'pool': pool, 'calls': [call], 'budget': 60,
             'behaviour': behaviour, 'shapes': sorted(set(shapes)), 'where': 'apply'}
 
 
@@ -157,7 +170,7 @@ def _args_for(shape, key):
     return {'ValueError': repr(('boom', key)), 'CustomError': repr(('custom', key)), 'AttrError': repr(('with attrs',)),
             'SystemExit': repr((3,)), 'KeyboardInterrupt': repr(()), 'Cancelled': repr(('cancelled', key)),
             'SlowPickle': f'(SlowArg({key}),)', 'BaseExc': repr(('base', key)), 'Unpicklable': repr(('holds a lock',)), 'LambdaAttr': repr(('holds a lambda',)),
-            'LocalClass': repr(('local', key)), 'NestedArgs': repr(({'k': [key, (1, 2)]}, 'x' * 50, key))}[shape]
+            'CtorArgs': repr((f'ctor-{key}',)), 'LocalClass': repr(('local', key)), 'NestedArgs': repr(({'k': [key, (1, 2)]}, 'x' * 50, key))}[shape]
 
 
 def _repr_for(shape, key, row):
@@ -201,6 +214,17 @@ def oracle(rec):
     use_dill = sc['pool'].get('use_dill', False) and sc['pool']['start_method'] != 'threading'
     raised = [(e['exc'], e['key'], e.get('phase')) for e in runner.all_events(rec, 'raised')]
     sm = sc['pool']['start_method']
+    if call['kind'] == 'apply_batch' and call.get('init_raises'):
+        sh, key = call['init_raises']
+        if out.get('outcome') != 'ok':
+            return f"apply batch itself raised {out.get('exc', {}).get('type')}: {out.get('exc', {}).get('args', '')[:120]}"
+        for j, v in zip(call['jobs'], out.get('value', [])):
+            if v[0] != 'exc':
+                return f"worker_init given to apply_async raised {sh} but get() of job {j['args'][0]} returned {str(v)[:80]}"
+            if not match({'type': v[1], 'args': v[2], 'dict_keys': tr[sh]['dict_keys'] if v[1] != 'CannotPickleExceptionError' else []},
+                         tr, use_dill, sh, key):
+                return f"worker_init given to apply_async raised {sh}(key={key}), get() of job {j['args'][0]} raised {v[1]}{v[2][:120]}"
+        return None
     if call['kind'] == 'apply_batch':
         beh = {b['at']: b['exc'] for b in sc['behaviour']['task']}
         for j, v in zip(call['jobs'], out.get('value', [])):
